@@ -4,14 +4,20 @@
 //
 // A constant is looked up by what it is, not by where it stands:
 //   - `timeLeeway` declared anywhere inside the method getCacheTTL of a given receiver type (any receiver name, any
-//     position in the body, typed or untyped), in any non-test file of the package directory;
+//     position in the body, typed or untyped), in any non-test file of the package directory; when the method declares
+//     none: the one package level constant with "leeway" in its name (any case) that the method body refers to (the
+//     constant hoisted out of the function; that its value is really what the function subtracts is proved for all
+//     inputs by the equality theorems about the translated function, Props/C10Src.lean);
 //   - package level constants / variables by name, in any non-test file of the package directory;
 //   - the DefaultTTL field of the endpoint.HTTPCache composite literal inside MetadataEndpoint.effectiveEndpoint.
 //
 // Values are constant expressions over integer literals, time.Second / Minute / Hour, + - * ( ) and conversions
 // (`int64(10)`, `time.Duration(5)`); an expression that mentions a time unit is a duration and must be a whole number
 // of seconds, a plain number is a number of seconds. Anything else, a missing or an ambiguous declaration aborts with
-// exit code 2 (fail closed).
+// exit code 2 (fail closed) - except for the four cache leeways and the default TTL of the JWT authenticator, which
+// are reported with an `error` instead: extract.py then derives them from the getCacheTTL functions translated by
+// extract/go2lean (the constant a function subtracts does not depend on its name or on where it is declared), and
+// fails closed when that is not possible either.
 package main
 
 import (
@@ -31,11 +37,31 @@ type fact struct {
 	Seconds int64  `json:"seconds"`
 	Expr    string `json:"expr"`
 	File    string `json:"file"`
+	// Error: the constant was not found by name (only for the constants that can also be derived from the translated
+	// getCacheTTL functions, see soft); extract.py then asks extract/go2lean
+	Error string `json:"error,omitempty"`
 }
 
+type failure string
+
 func die(format string, args ...any) {
-	fmt.Fprintf(os.Stderr, "validity extractor: "+format+"\n", args...)
-	os.Exit(2)
+	panic(failure(fmt.Sprintf("validity extractor: "+format, args...)))
+}
+
+// soft: a lookup whose failure is reported in the output instead of aborting the extraction
+func soft(lookup func() fact) (f fact) {
+	defer func() {
+		if r := recover(); r != nil {
+			msg, ok := r.(failure)
+			if !ok {
+				panic(r)
+			}
+
+			f = fact{Error: string(msg)}
+		}
+	}()
+
+	return lookup()
 }
 
 type pkg struct {
@@ -239,11 +265,71 @@ func (p *pkg) constInMethod(key, recv, method, constName string) fact {
 		}
 	}
 
+	if len(found) == 0 {
+		// hoisted out of the method: the package level constant (any name containing "leeway") the method refers to
+		names := map[string]bool{}
+
+		for _, f := range p.files {
+			for _, d := range f.Decls {
+				fd, ok := d.(*ast.FuncDecl)
+				if !ok || fd.Body == nil || fd.Name.Name != method || recvType(fd) != recv {
+					continue
+				}
+
+				ast.Inspect(fd.Body, func(n ast.Node) bool {
+					if sel, ok := n.(*ast.SelectorExpr); ok {
+						// the selected name is a field or a member of another package
+						ast.Inspect(sel.X, func(m ast.Node) bool {
+							if id, ok := m.(*ast.Ident); ok && strings.Contains(strings.ToLower(id.Name), "leeway") {
+								names[id.Name] = true
+							}
+
+							return true
+						})
+
+						return false
+					}
+
+					if id, ok := n.(*ast.Ident); ok && strings.Contains(strings.ToLower(id.Name), "leeway") {
+						names[id.Name] = true
+					}
+
+					return true
+				})
+			}
+		}
+
+		for name := range names {
+			if p.hasPkgConst(name) {
+				found = append(found, p.pkgConst(key, name))
+			}
+		}
+	}
+
 	if len(found) != 1 {
-		die("%s: expected exactly one `%s` inside (%s).%s in %s, found %d", key, constName, recv, method, p.rel, len(found))
+		die("%s: expected exactly one `%s` inside (%s).%s in %s (or exactly one package level *leeway* constant used "+
+			"there), found %d", key, constName, recv, method, p.rel, len(found))
 	}
 
 	return found[0]
+}
+
+func (p *pkg) hasPkgConst(constName string) bool {
+	n := 0
+
+	for _, f := range p.files {
+		for _, d := range f.Decls {
+			if gd, ok := d.(*ast.GenDecl); ok {
+				valueSpecs(gd, func(name string, _ ast.Expr) {
+					if name == constName {
+						n++
+					}
+				})
+			}
+		}
+	}
+
+	return n == 1
 }
 
 // pkgConst: the package level declaration `constName`
@@ -308,6 +394,18 @@ func (p *pkg) fieldInMethod(key, recv, method, typ, field string) fact {
 }
 
 func main() {
+	defer func() {
+		if r := recover(); r != nil {
+			msg, ok := r.(failure)
+			if !ok {
+				panic(r)
+			}
+
+			fmt.Fprintln(os.Stderr, string(msg))
+			os.Exit(2) //nolint:mnd
+		}
+	}()
+
 	if len(os.Args) != 2 { //nolint:mnd
 		die("usage: validity <repo>")
 	}
@@ -320,13 +418,19 @@ func main() {
 	oa := parseDir(repo, "internal/rules/mechanisms/oauth2")
 
 	out := map[string]fact{
-		"introspectionLeeway":      authn.constInMethod("introspectionLeeway", "oauth2IntrospectionAuthenticator", "getCacheTTL", "timeLeeway"),
-		"genericLeeway":            authn.constInMethod("genericLeeway", "genericAuthenticator", "getCacheTTL", "timeLeeway"),
-		"jwtKeyLeeway":             authn.constInMethod("jwtKeyLeeway", "jwtAuthenticator", "getCacheTTL", "timeLeeway"),
-		"clientCredsLeeway":        cc.constInMethod("clientCredsLeeway", "Config", "getCacheTTL", "timeLeeway"),
+		"introspectionLeeway": soft(func() fact {
+			return authn.constInMethod("introspectionLeeway", "oauth2IntrospectionAuthenticator", "getCacheTTL", "timeLeeway")
+		}),
+		"genericLeeway": soft(func() fact {
+			return authn.constInMethod("genericLeeway", "genericAuthenticator", "getCacheTTL", "timeLeeway")
+		}),
+		"jwtKeyLeeway": soft(func() fact {
+			return authn.constInMethod("jwtKeyLeeway", "jwtAuthenticator", "getCacheTTL", "timeLeeway")
+		}),
+		"clientCredsLeeway":        soft(func() fact { return cc.constInMethod("clientCredsLeeway", "Config", "getCacheTTL", "timeLeeway") }),
 		"jwtFinalizerLeeway":       fin.pkgConst("jwtFinalizerLeeway", "defaultCacheLeeway"),
 		"jwtFinalizerDefaultTTL":   fin.pkgConst("jwtFinalizerDefaultTTL", "defaultJWTTTL"),
-		"jwtKeyDefaultTTL":         authn.pkgConst("jwtKeyDefaultTTL", "defaultJWTAuthenticatorTTL"),
+		"jwtKeyDefaultTTL":         soft(func() fact { return authn.pkgConst("jwtKeyDefaultTTL", "defaultJWTAuthenticatorTTL") }),
 		"contextualizerDefaultTTL": ctxz.pkgConst("contextualizerDefaultTTL", "defaultTTL"),
 		"tokenValidityLeeway":      oa.pkgConst("tokenValidityLeeway", "defaultLeeway"),
 		"sessionValidityLeeway":    authn.pkgConst("sessionValidityLeeway", "defaultLeeway"),
